@@ -110,6 +110,12 @@ def cases(tier):
                 for till in (2, 3, 4):
                     out.append(program(kind, period, seq, 0, None, till=till))
                     out.append(program(kind, period, seq, 3, None, till=till))
+    # very short periods: a pause of 2**-32 is a pause
+    for kind in ('INTERVAL', 'DELAYLOOP'):
+        for period in (2.0 ** -32, 2.0 ** -40):
+            for seq in (('n',), ('n', 'n', 'n'), ('i', 'n', 'i'), ('n', 'i')):
+                for start in (0, 3):
+                    out.append(program(kind, period, seq, start, None))
     # bodies that run a nested simulation (the ticker's own simulation must be undisturbed afterwards)
     for kind in ('INTERVAL', 'DELAYLOOP'):
         for period in (0, 1, 2):
